@@ -122,7 +122,19 @@ class Pool:
                 e.pop("supportsCustomValues")
             else:
                 e["supportsCustomValues"] = True
-        docs: Dict[str, dict] = {"small_a": small_a, "small_b": small_b, "ext": ext, "small_mx": small_mx, "small_a_open": small_a_open}
+        # same declarations and counts as small_a, but a structure that others extend / mix in has changed
+        small_a_base = copy.deepcopy(small_a)
+        sm = Model(small_a_base)
+        parents = collections.Counter(a for s in sm.structs for a in sm.ancestors(s))
+        for pname, _ in parents.most_common(3):
+            st_ = sm.structs[pname]
+            st_["properties"].append({"name": "vfTrace" + pname[:6], "type": {"kind": "base", "name": "string"}, "optional": True})
+            if st_["properties"][0].get("optional"):
+                st_["properties"][0].pop("optional")
+            else:
+                st_["properties"][0]["optional"] = True
+        docs: Dict[str, dict] = {"small_a": small_a, "small_b": small_b, "ext": ext, "small_mx": small_mx, "small_a_open": small_a_open,
+                                 "small_a_base": small_a_base}
         if not (quick and plugin in ("dotnet", "testdata")):
             docs["evo1"] = evolved[-1][0]
             if plugin != "testdata":
@@ -136,7 +148,7 @@ class Pool:
         P = lambda n: os.path.join(self.dir, n + ".json")
         self.lists: Dict[str, List[str]] = {
             "small_a": [P("small_a")], "small_b": [P("small_b")], "small_a+ext": [P("small_a"), P("ext")],
-            "small_mx": [P("small_mx")], "small_a_open": [P("small_a_open")],
+            "small_mx": [P("small_mx")], "small_a_open": [P("small_a_open")], "small_a_base": [P("small_a_base")],
         }
         slow = plugin in ("dotnet", "testdata")
         if not (quick and slow):
@@ -327,7 +339,7 @@ def _work(args) -> dict:
         if shard == 1:
             # in-process history: the same model generated before and after other models within one process
             from .c19 import in_child
-            order = ["small_a", "small_a_open", "small_a", "small_mx", "small_b", "small_a", "small_mx"]
+            order = ["small_a", "small_a_open", "small_a", "small_a_base", "small_a", "small_mx", "small_b", "small_a_base", "small_mx"]
             res = in_child(child_inprocess, plugin, pool.lists, order, timeout=900)
             if res is not None:
                 mref = M()
